@@ -208,6 +208,14 @@ def run(prop, tier):
                     ok_clear &= c[i_cl][4][0] is not None and c[i_cl][4][0] == c[i_rm][4][5]
                     ok_ext &= c[i_ex][4][0] is not None and c[i_ex][4][0] == c[i_rm][4][5]
                     ok_drain &= c[i_dr][4][0] is not None and c[i_dr][4][0] == c[i_tt][4][4]
+                ok_reset = True
+                for p3 in ps3:
+                    c = p3.calls
+                    rs = [i for i, x in enumerate(c) if "as Iterator>::for_each::<" in x[0] and "ChanceRecurse>::advance" in x[0]]
+                    i_rm = next((i for i, x in enumerate(c) if re.search(r"^recurse_multi::<", x[0])), None)
+                    if not (len(rs) == 1 and i_rm is not None and rs[0] > i_rm and c[rs[0]][1][0][0] == "call" and "iter_mut" in c[rs[0]][1][0][1]):
+                        ok_reset = False
+                structural.append(("vm-chance-reset", "after the traversal of every iteration EVERY chance infoset is advanced (for_each over the whole table: drawn outcomes are forgotten before the next pass)", ok_reset))
                 structural.append(("vm-order", "unsampled multi-thread iteration: cut the tree, run the tasks into the cache, cached traversal from the root, clear the cache (on every path, inner loop unrolled <= 3)", ok_order))
                 structural.append(("vm-clear-target", "the cache cleared at the end of every iteration is the one the cached traversal read", ok_order and ok_clear))
                 structural.append(("vm-extend-target", "the tasks' payoffs go into that same cache", ok_order and ok_ext))
@@ -216,6 +224,37 @@ def run(prop, tier):
             res["infra"].append(f"{vm}: loop header not recognised")
     else:
         res["infra"].append(f"{vm} not found in MIR")
+
+    # ---------------------------------------------------------------- solve_generic_single (one iteration): chance reset
+    if "solve_generic_single" in fns:
+        f5 = mir.Fn("solve_generic_single", fns["solve_generic_single"])
+        H5 = [b for b, (_, t, _) in f5.blocks.items() if "RangeInclusive<u64> as Iterator>::next" in t]
+        ps5, why5 = None, "loop header not recognised"
+        if len(H5) == 1:
+            nxt5 = re.search(r"return: (bb\d+)", f5.blocks[H5[0]][1]).group(1)
+            m5 = re.search(r"\[0: (bb\d+), 1: (bb\d+)", f5.blocks[nxt5][1])
+            if m5:
+                ex5 = mir.Executor(f5, stops={H5[0]: "continue", m5.group(1): "break"}, max_visits=3)
+                ps5 = ex5.run(entry=m5.group(2))
+                if ex5.unknown:
+                    ps5, why5 = None, "MIR constructs the encoder does not know: " + "; ".join(sorted(set(ex5.unknown))[:4])
+        if ps5 is None:
+            res["infra"].append("solve_generic_single: " + why5)
+        else:
+            ok_reset, ok_tables = bool(ps5), True
+            for p5 in ps5:
+                c = p5.calls
+                i_rs = next((i for i, x in enumerate(c) if re.search(r"^recurse_single::<", x[0])), None)
+                rs = [i for i, x in enumerate(c) if "as Iterator>::for_each::<" in x[0] and "ChanceRecurse>::advance" in x[0]]
+                if not (i_rs is not None and len(rs) == 1 and rs[0] > i_rs and c[rs[0]][1][0][0] == "call" and "iter_mut" in c[rs[0]][1][0][1]):
+                    ok_reset = False
+                    continue
+                # the table that is reset is the one the traversal read
+                tbl = repr(c[i_rs][1][1])
+                ok_tables &= ("solve_generic_single:_2" in tbl and "solve_generic_single:_2" in repr(c[rs[0]][1][0]))
+            structural.append(("vs-chance-reset", "single-thread Full/Sampled driver: after the traversal of every iteration EVERY chance infoset is advanced (for_each over the whole table, the one the traversal read)", ok_reset and ok_tables))
+    else:
+        res["infra"].append("solve_generic_single not found in MIR")
 
     # ---------------------------------------------------------------- Game::solve dispatch (acyclic)
     gs = next((k for k in fns if re.fullmatch(r"<impl at src/lib\.rs:[0-9:]+ [0-9:]+>::solve", k)), None)
